@@ -50,3 +50,19 @@ Proof. reflexivity. Qed.
 
 Lemma text_tok {K} (k : K) s : text (Tok k s) = s.
 Proof. reflexivity. Qed.
+
+(* induction principle for the nested tree type *)
+Section ElemInd.
+  Context {K : Type} (P : elem K -> Prop).
+  Context (Htok : forall k s, P (Tok k s)).
+  Context (Hnode : forall k cs, Forall P cs -> P (Node k cs)).
+  Fixpoint elem_ind2 (e : elem K) : P e :=
+    match e with
+    | Tok k s => Htok k s
+    | Node k cs => Hnode k cs ((fix go (l : list (elem K)) : Forall P l :=
+                                  match l with
+                                  | [] => Forall_nil P
+                                  | x :: r => Forall_cons x (elem_ind2 x) (go r)
+                                  end) cs)
+    end.
+End ElemInd.
